@@ -197,6 +197,64 @@ def lowerArgs (cs : Bool) (σ : List Nat) : List Expr → Ctx → List Item × L
     let r := lowerArgs cs σ es o.ctx
     (o.items ++ r.1, (.base (cls e.ty), o.val) :: r.2.1, r.2.2)
 
+/-- `funcexpr(f, e)` with array reads (`EXPRUNARY *`: the address, then `funcload`) and calls (`EXPRCALL`: the
+    arguments in order, then `call` into a new temporary of the class of the return type). -/
+def funcexpr3 (cs : Bool) (σ : List Nat) : Expr3 → Ctx → Out
+  | .pure e, c => funcexpr2 cs σ e c
+  | .idx t arr _ _ i, c =>
+    let oa := lowerAddr cs σ c (σ.getD arr 0) t i
+    oa.seq (funcinst oa.ctx (.load (loadOf cs t)) (cls t) [oa.val])
+  | .call rt fn args, c =>
+    let la := lowerArgs cs σ args c
+    ⟨la.1 ++ [.ins (.call (some (tmpName (la.2.2.lastid + 1), .base (cls rt))) (.glob fn false) la.2.1 none)],
+      .tmp (tmpName (la.2.2.lastid + 1)), ⟨la.2.2.lastid + 1, la.2.2.blockid, la.2.2.cur⟩⟩
+  | .cast t e, c =>
+    let o := funcexpr3 cs σ e c
+    o.seq (convert cs o.ctx t e.ty o.val)
+  | .neg t e, c =>
+    let o := funcexpr3 cs σ e c
+    o.seq (funcinst o.ctx .neg (cls t) [o.val])
+  | .bin op t l r, c =>
+    let ol := funcexpr3 cs σ l c
+    if isLogic op then
+      let right := lblName "logic_right" (ol.ctx.blockid + 1)
+      let join := lblName "logic_join" (ol.ctx.blockid + 2)
+      let c1 : Ctx := ⟨ol.ctx.lastid, ol.ctx.blockid + 2, ol.ctx.cur⟩
+      let oj := jnzArg cs c1 l.ty ol.val
+      let isOr := op == .lor
+      let jump := if isOr then Jump.jnz oj.val join right else Jump.jnz oj.val right join
+      let src0 : String × Val := (oj.ctx.cur, .int (if isOr then 1 else 0))
+      let or := funcexpr3 cs σ r ⟨oj.ctx.lastid, oj.ctx.blockid, right⟩
+      let ov := convert cs or.ctx .bool r.ty or.val
+      let src1 : String × Val := (ov.ctx.cur, ov.val)
+      let res := tmpName (ov.ctx.lastid + 1)
+      ⟨ol.items ++ oj.items ++ [.lbl (some jump) right []] ++ or.items ++ ov.items ++
+         [.lbl none join [⟨res, .w, [src0, src1]⟩]],
+       .tmp res,
+       ⟨ov.ctx.lastid + 1, ov.ctx.blockid, join⟩⟩
+    else
+      let or := funcexpr3 cs σ r ol.ctx
+      (ol.seq or).seq (funcinst or.ctx (binOpOf cs op l.ty) (cls t) [ol.val, or.val])
+  | .cond t e a b, c =>
+    let ltrue := lblName "cond_true" (c.blockid + 1)
+    let lfalse := lblName "cond_false" (c.blockid + 2)
+    let ljoin := lblName "cond_join" (c.blockid + 3)
+    let oc := funcexpr3 cs σ e ⟨c.lastid, c.blockid + 3, c.cur⟩
+    let oj := jnzArg cs oc.ctx e.ty oc.val
+    let oa := funcexpr3 cs σ a ⟨oj.ctx.lastid, oj.ctx.blockid, ltrue⟩
+    let ob := funcexpr3 cs σ b ⟨oa.ctx.lastid, oa.ctx.blockid, lfalse⟩
+    let res := tmpName (ob.ctx.lastid + 1)
+    ⟨oc.items ++ oj.items ++ [.lbl (some (.jnz oj.val ltrue lfalse)) ltrue []] ++ oa.items ++
+       [.lbl (some (.jmp ljoin)) lfalse []] ++ ob.items ++
+       [.lbl none ljoin [⟨res, cls t, [(oa.ctx.cur, oa.val), (ob.ctx.cur, ob.val)]⟩]],
+     .tmp res,
+     ⟨ob.ctx.lastid + 1, ob.ctx.blockid, ljoin⟩⟩
+
+/-- `funcexpr(f, e)` at statement level. -/
+def lowerE3 (cs : Bool) (c : SCtx) (e : Expr3) : EOut :=
+  let o := funcexpr3 cs (funcopen c).2.slots e (funcopen c).2.ctx
+  ⟨(funcopen c).1 ++ o.items, o.val, (funcopen c).2.upd o.ctx⟩
+
 /-- `stmt(f, s)`; `brk`, `cont` = `s->breaklabel`, `s->continuelabel`. -/
 def funcstmt (cs : Bool) : (brk cont : String) → Stmt → SCtx → SOut
   | _, _, .skip, c => ⟨[], [], c, [], none⟩
@@ -206,11 +264,11 @@ def funcstmt (cs : Bool) : (brk cont : String) → Stmt → SCtx → SOut
     match init with
     | none => ⟨[], [allocIns (t, 1) (c.lastid + 1)], c1, [], none⟩
     | some e =>
-      let oe := lowerE cs c1 e
+      let oe := lowerE3 cs c1 e
       ⟨oe.items ++ [storeIns t oe.val (c.lastid + 1)], [allocIns (t, 1) (c.lastid + 1)], oe.ctx, [], none⟩
   | _, _, .assign i t e, c =>
     -- EXPRASSIGN: r = funcexpr(r); funclval(l) emits nothing for an identifier; funcstore
-    let oe := lowerE cs c e
+    let oe := lowerE3 cs c e
     ⟨oe.items ++ [storeIns t oe.val (c.slots.getD i 0)], [], oe.ctx, [], none⟩
   | _, _, .incdec i t inc, c =>
     -- EXPRINCDEC: funcload; add/sub 1 at the class of the type; (convert for _Bool); funcstore
@@ -221,10 +279,10 @@ def funcstmt (cs : Bool) : (brk cont : String) → Stmt → SCtx → SOut
     ⟨(funcopen c).1 ++ ol.items ++ oa.items ++ ov.items ++ [storeIns t ov.val (c.slots.getD i 0)], [],
       c0.upd ov.ctx, [], none⟩
   | _, _, .expr e, c =>
-    let oe := lowerE cs c e
+    let oe := lowerE3 cs c e
     ⟨oe.items, [], oe.ctx, [], none⟩
   | _, _, .ret e, c =>
-    let oe := lowerE cs c e
+    let oe := lowerE3 cs c e
     ⟨oe.items, [], oe.ctx.setJump (.ret (some oe.val)), [], none⟩
   | brk, cont, .seq a b, c =>
     let oa := funcstmt cs brk cont a c
@@ -234,7 +292,7 @@ def funcstmt (cs : Bool) : (brk cont : String) → Stmt → SCtx → SOut
       | some d => some d
       | none => ob.dflt⟩
   | brk, cont, .ite e a, c =>
-    let oe := lowerE cs c e
+    let oe := lowerE3 cs c e
     let ltrue := lblName "if_true" (oe.ctx.blockid + 1)
     let lfalse := lblName "if_false" (oe.ctx.blockid + 2)
     let oj := lowerJnz cs (oe.ctx.addBlocks 2) e.ty oe.val
@@ -243,7 +301,7 @@ def funcstmt (cs : Bool) : (brk cont : String) → Stmt → SCtx → SOut
        [labelItem oa.ctx lfalse],
      oa.allocs, oa.ctx.atLabel lfalse, [], none⟩
   | brk, cont, .itee e a b, c =>
-    let oe := lowerE cs c e
+    let oe := lowerE3 cs c e
     let ltrue := lblName "if_true" (oe.ctx.blockid + 1)
     let lfalse := lblName "if_false" (oe.ctx.blockid + 2)
     let oj := lowerJnz cs (oe.ctx.addBlocks 2) e.ty oe.val
@@ -258,7 +316,7 @@ def funcstmt (cs : Bool) : (brk cont : String) → Stmt → SCtx → SOut
     let lcond := lblName "while_cond" (c.blockid + 1)
     let lbody := lblName "while_body" (c.blockid + 2)
     let ljoin := lblName "while_join" (c.blockid + 3)
-    let oe := lowerE cs ((c.addBlocks 3).atLabel lcond) e
+    let oe := lowerE3 cs ((c.addBlocks 3).atLabel lcond) e
     let oj := lowerJnz cs oe.ctx e.ty oe.val
     let ob := funcstmt cs ljoin lcond b (oj.ctx.atLabel lbody)
     ⟨[labelItem c lcond] ++ oe.items ++ oj.items ++ [.lbl (some (.jnz oj.val lbody ljoin)) lbody []] ++
@@ -269,7 +327,7 @@ def funcstmt (cs : Bool) : (brk cont : String) → Stmt → SCtx → SOut
     let lcond := lblName "do_cond" (c.blockid + 2)
     let ljoin := lblName "do_join" (c.blockid + 3)
     let ob := funcstmt cs ljoin lcond b ((c.addBlocks 3).atLabel lbody)
-    let oe := lowerE cs (ob.ctx.atLabel lcond) e
+    let oe := lowerE3 cs (ob.ctx.atLabel lcond) e
     let oj := lowerJnz cs oe.ctx e.ty oe.val
     ⟨[labelItem c lbody] ++ ob.items ++ [labelItem ob.ctx lcond] ++ oe.items ++ oj.items ++
        [.lbl (some (.jnz oj.val lbody ljoin)) ljoin []],
@@ -284,7 +342,7 @@ def funcstmt (cs : Bool) : (brk cont : String) → Stmt → SCtx → SOut
       match e with
       | none => ([.lbl none lbody []], c1.atLabel lbody)
       | some e =>
-        let oe := lowerE cs c1 e
+        let oe := lowerE3 cs c1 e
         let oj := lowerJnz cs oe.ctx e.ty oe.val
         (oe.items ++ oj.items ++ [.lbl (some (.jnz oj.val lbody ljoin)) lbody []], oj.ctx.atLabel lbody)
     let ob := funcstmt cs ljoin lcont b hd.2
@@ -332,7 +390,7 @@ def funcstmt (cs : Bool) : (brk cont : String) → Stmt → SCtx → SOut
       c0.upd ov.ctx, [], none⟩
   | _, _, .astore arr t _ _ idx e, c =>
     -- EXPRASSIGN: r = funcexpr(e); funclval(*(off + &a)) = funcexpr of the pointer; funcstore
-    let oe := lowerE cs c e
+    let oe := lowerE3 cs c e
     let oa := lowerAddr cs oe.ctx.slots oe.ctx.ctx (c.slots.getD arr 0) t idx
     ⟨oe.items ++ oa.items ++ [.ins (.op none (.store (storeOf t)) [oe.val, oa.val])], [],
       oe.ctx.upd oa.ctx, [], none⟩
@@ -341,7 +399,7 @@ def funcstmt (cs : Bool) : (brk cont : String) → Stmt → SCtx → SOut
     -- body with breaklabel = b[1]; funcjmp(f, b[1]); funclabel(f, b[0]); funcswitch; funclabel(f, b[1])
     let lcond := lblName "switch_cond" (c.blockid + 1)
     let ljoin := lblName "switch_join" (c.blockid + 2)
-    let oe := lowerE cs (c.addBlocks 2) e
+    let oe := lowerE3 cs (c.addBlocks 2) e
     let ob := funcstmt cs ljoin cont b (oe.ctx.setJump (.jmp lcond))
     let c2 := ob.ctx.setJump (.jmp ljoin)
     let dl := ob.dflt.getD ljoin
